@@ -118,6 +118,29 @@ inductive Upstream where
   /-- HTTP proxy `host:port`; `auth` = value of the Proxy-Authorization the transport adds (from the
       proxy URL's userinfo or the matching --credentials entry) -/
   | http (hostport : Bytes) (auth : Option Bytes)
+  /-- HTTPS proxy (TLS to the proxy, then as `http`) -/
+  | https (hostport : Bytes) (auth : Option Bytes)
+  /-- SOCKS5 proxy; `auth` = user/password offered in the SOCKS negotiation -/
+  | socks5 (hostport : Bytes) (auth : Option (Bytes × Bytes))
+  /-- a proxy URL whose scheme neither path supports: the transport treats it as an HTTP proxy, the
+      CONNECT path fails.  Configuration validation admits `http`, `https`, `socks5` only and PAC
+      entries `SOCKS`/`SOCKS4` fail in `pacProxy` (→ `failed`), so only a custom proxy function
+      can produce one. -/
+  | other (scheme hostport : Bytes) (auth : Option Bytes)
+  /-- the proxy function returned an error (PAC script error, unparsable entry) -/
+  | failed
+  deriving Repr, DecidableEq
+
+/-- one entry of a domain list (`--deny-domains`, `--direct-domains`): the harness writes the
+    pattern as the Go regexp `^lit$`, `lit$`, `^lit`, `lit`, `.*` (literal quoted); a leading `-`
+    makes it an exclusion -/
+inductive DomPat where
+  | exact (s : Bytes) | suffix (s : Bytes) | pfx (s : Bytes) | contains (s : Bytes) | all
+  deriving Repr, DecidableEq
+
+structure DomRule where
+  pat : DomPat
+  exclude : Bool := false
   deriving Repr, DecidableEq
 
 structure Cfg where
@@ -132,6 +155,8 @@ structure Cfg where
   connectRules : List Rule := []      -- --connect-header rules (CONNECT requests)
   siteCred : Option Bytes := none     -- `Authorization` value --credentials yields for this target, if any
   upstream : Upstream := .none
+  denyRules : List DomRule := []      -- deny-domains in the general form (`ruleset.RegexpMatcher`)
+  mitm : Bool := false                -- CONNECT requests are intercepted (`--mitm`, no domain filter)
   deriving Repr
 
 structure Ctx where
@@ -254,23 +279,70 @@ def readRequest (r : Request) : Except ReadErr GoReq := do
 
 /-! ### martian + forwarder modifiers -/
 
-/-- `req.URL.Hostname()`: authority without port (brackets of an IPv6 literal stripped) -/
-def hostname (hostport : Bytes) : Bytes :=
-  match hostport with
-  | 91 :: rest => rest.takeWhile (fun c => c != 93)         -- "[v6]:port"
-  | _ =>
-    -- strip the last ":port" if what follows the last colon is all digits (validOptionalPort)
-    let rev := hostport.reverse
-    let portRev := rev.takeWhile (fun c => c != 58)
-    if portRev.length < hostport.length && portRev.all isDigit then (rev.drop (portRev.length + 1)).reverse
-    else hostport
+/-! ### `net/url` host splitting, `net.SplitHostPort`, `net.JoinHostPort` -/
 
-/-- IPv4 dotted quad → four octets -/
+def indexOfByte (c : UInt8) : Bytes → Option Nat
+  | [] => none
+  | x :: xs => if x == c then some 0 else (indexOfByte c xs).map (· + 1)
+
+def lastIndexOfByte (c : UInt8) (s : Bytes) : Option Nat :=
+  (indexOfByte c s.reverse).map fun i => s.length - 1 - i
+
+/-- `validOptionalPort`: "" or ":" followed by digits only -/
+def validOptionalPort : Bytes → Bool
+  | [] => true
+  | c :: rest => c == 58 && rest.all isDigit
+
+/-- net/url `splitHostPort`: the port is what follows the LAST colon when that is all digits;
+    a host wrapped in brackets loses them -/
+def urlSplitHostPort (hp : Bytes) : Bytes × Bytes :=
+  let (host, port) : Bytes × Bytes := match lastIndexOfByte 58 hp with
+    | some i => if validOptionalPort (hp.drop i) then (hp.take i, hp.drop (i + 1)) else (hp, [])
+    | none => (hp, [])
+  let host := if host.head? == some 91 && host.getLast? == some 93 then (host.drop 1).dropLast else host
+  (host, port)
+
+/-- `req.URL.Hostname()` -/
+def hostname (hostport : Bytes) : Bytes := (urlSplitHostPort hostport).1
+
+/-- `req.URL.Port()` -/
+def urlPort (hostport : Bytes) : Bytes := (urlSplitHostPort hostport).2
+
+/-- `net.SplitHostPort` (none = error) -/
+def netSplitHostPort (hp : Bytes) : Option (Bytes × Bytes) :=
+  match lastIndexOfByte 58 hp with
+  | none => none
+  | some i =>
+    if hp.head? == some 91 then
+      match indexOfByte 93 hp with
+      | none => none
+      | some e =>
+        if e + 1 == hp.length then none
+        else if e + 1 == i then
+          if (hp.drop 1).contains 91 || (hp.drop (e + 1)).contains 93 then none
+          else some ((hp.take e).drop 1, hp.drop (i + 1))
+        else none
+    else
+      let host := hp.take i
+      if host.contains 58 || hp.contains 91 || hp.contains 93 then none
+      else some (host, hp.drop (i + 1))
+
+/-- `net.JoinHostPort` -/
+def netJoinHostPort (host port : Bytes) : Bytes :=
+  if host.contains 58 then [91] ++ host ++ [93, 58] ++ port else host ++ [58] ++ port
+
+/-! ### IP literals: `net.ParseIP` (= `netip.ParseAddr` without zones), `IsLoopback`, `IsUnspecified` -/
+
+def splitOnByte (sep : UInt8) (s : Bytes) : List Bytes :=
+  let rec go (cur : Bytes) (acc : List Bytes) : Bytes → List Bytes
+    | [] => (cur.reverse :: acc).reverse
+    | c :: cs => if c == sep then go [] (cur.reverse :: acc) cs else go (c :: cur) acc cs
+  go [] [] s
+
+/-- IPv4 dotted quad → four octets (`netip.parseIPv4Fields`: exactly four decimal fields, each
+    0..255, no leading zero, no empty field) -/
 def parseIPv4 (s : Bytes) : Option (List Nat) :=
-  let parts := (let rec go (cur : Bytes) (acc : List Bytes) : Bytes → List Bytes
-                  | [] => (cur.reverse :: acc).reverse
-                  | c :: cs => if c == 46 then go [] (cur.reverse :: acc) cs else go (c :: cur) acc cs
-                go [] [] s)
+  let parts := splitOnByte 46 s
   if parts.length != 4 then none else
   parts.mapM fun p =>
     if p.isEmpty || p.length > 3 || !p.all isDigit then none
@@ -279,21 +351,113 @@ def parseIPv4 (s : Bytes) : Option (List Nat) :=
       | some n => if n ≤ 255 then some n else none
       | none => none
 
-/-- Loopback test of `isLocalhost` for the literal shapes the model covers: IPv4 dotted quads
-    (127.0.0.0/8) and the IPv6 spellings listed (canonical `::1` and its expanded forms are handled
-    by the correspondence generator through `loopbackV6`). -/
-def loopbackV6 : List Bytes := [bs "::1", bs "0:0:0:0:0:0:0:1", bs "0000:0000:0000:0000:0000:0000:0000:0001",
-  bs "::0:1", bs "0::1", bs "::ffff:127.0.0.1", bs "::ffff:7f00:1", bs "::ffff:127.1.2.3"]
+def hexVal? (c : UInt8) : Option Nat :=
+  if isDigit c then some (c.toNat - 48)
+  else if 97 ≤ c && c ≤ 102 then some (c.toNat - 87)
+  else if 65 ≤ c && c ≤ 70 then some (c.toNat - 55)
+  else none
 
+/-- one colon-separated IPv6 field: 1 to 4 hex digits -/
+def parseHexGroup (g : Bytes) : Option Nat :=
+  if g.isEmpty || g.length > 4 then none
+  else g.foldlM (fun acc c => (hexVal? c).map (acc * 16 + ·)) 0
+
+/-- colon-separated fields; only the last one may be an embedded dotted quad (two 16-bit fields) -/
+def parseV6Groups (allowV4 : Bool) : List Bytes → Option (List Nat)
+  | [] => some []
+  | [g] =>
+    if allowV4 && g.contains 46 then
+      match parseIPv4 g with
+      | some [a, b, c, d] => some [a * 256 + b, c * 256 + d]
+      | _ => none
+    else (parseHexGroup g).map fun x => [x]
+  | g :: rest => do
+    let x ← parseHexGroup g
+    let xs ← parseV6Groups allowV4 rest
+    pure (x :: xs)
+
+/-- position of the first `::` -/
+def findDoubleColon : Bytes → Option Nat
+  | 58 :: 58 :: _ => some 0
+  | _ :: rest => (findDoubleColon rest).map (· + 1)
+  | [] => none
+
+/-- `netip.parseIPv6` without zone: eight 16-bit fields -/
+def parseIPv6 (s : Bytes) : Option (List Nat) :=
+  if s.contains 37 then none else                              -- '%': zones are refused by net.ParseIP
+  match findDoubleColon s with
+  | none =>
+    match parseV6Groups true (splitOnByte 58 s) with
+    | some fs => if fs.length == 8 then some fs else none
+    | none => none
+  | some i =>
+    let l := s.take i
+    let r := s.drop (i + 2)
+    match (if l.isEmpty then some [] else parseV6Groups false (splitOnByte 58 l)),
+          (if r.isEmpty then some [] else parseV6Groups true (splitOnByte 58 r)) with
+    | some lg, some rg =>
+      if lg.length + rg.length ≤ 7 then some (lg ++ List.replicate (8 - (lg.length + rg.length)) 0 ++ rg)
+      else none
+    | _, _ => none
+
+/-- `net.ParseIP` as eight 16-bit fields (an IPv4 address in its IPv4-mapped form, as Go's 16-byte
+    representation has it); dispatch on the first of `.`, `:`, `%` as `netip.ParseAddr` does -/
+def parseIP (s : Bytes) : Option (List Nat) :=
+  match s.find? (fun c => c == 46 || c == 58 || c == 37) with
+  | some 46 =>
+    match parseIPv4 s with
+    | some [a, b, c, d] => some [0, 0, 0, 0, 0, 65535, a * 256 + b, c * 256 + d]
+    | _ => none
+  | some 58 => parseIPv6 s
+  | _ => none
+
+/-- `IP.IsLoopback`: 127.0.0.0/8 for an address with a 4-byte form (incl. IPv4-mapped), else `::1` -/
+def ipIsLoopback (ip : List Nat) : Bool :=
+  match ip with
+  | [0, 0, 0, 0, 0, 65535, g, _] => g / 256 == 127
+  | _ => ip == [0, 0, 0, 0, 0, 0, 0, 1]
+
+/-- `IP.IsUnspecified`: `0.0.0.0` (also as `::ffff:0.0.0.0`) or `::` -/
+def ipIsUnspecified (ip : List Nat) : Bool :=
+  ip == [0, 0, 0, 0, 0, 65535, 0, 0] || ip == [0, 0, 0, 0, 0, 0, 0, 0]
+
+/-- `net.ParseIP(h) != nil && ip.IsLoopback()` -/
 def isLoopbackLiteral (h : Bytes) : Bool :=
-  match parseIPv4 h with
-  | some (a :: _) => a == 127
-  | _ => loopbackV6.contains h
+  match parseIP h with
+  | some ip => ipIsLoopback ip
+  | none => false
 
-/-- `HTTPProxy.isLocalhost` -/
-def isLocalhost (cfg : Cfg) (host : Bytes) : Bool :=
+def isUnspecifiedLiteral (h : Bytes) : Bool :=
+  match parseIP h with
+  | some ip => ipIsUnspecified ip
+  | none => false
+
+/-- `HTTPProxy.isLocalhost` (`names` = `hp.localhost`): a configured name, or an IP literal that
+    `IsLoopback()` or `IsUnspecified()` -/
+def isLocalhostNames (names : List Bytes) (host : Bytes) : Bool :=
   let h := lower host
-  cfg.localhostNames.contains h || isLoopbackLiteral h
+  names.contains h || isLoopbackLiteral h || isUnspecifiedLiteral h
+
+def isLocalhost (cfg : Cfg) (host : Bytes) : Bool := isLocalhostNames cfg.localhostNames host
+
+/-- what the property asks of the classifier: a configured localhost name, or a loopback or
+    unspecified IP literal in any spelling (`isLocalhost` meets it: `c04_localhost_spec_full`) -/
+def isLocalhostSpec (cfg : Cfg) (host : Bytes) : Bool :=
+  let h := lower host
+  cfg.localhostNames.contains h || isLoopbackLiteral h || isUnspecifiedLiteral h
+
+/-! ### domain lists (`ruleset.RegexpMatcher` for the pattern shapes of `DomPat`) -/
+
+def DomPat.matches : DomPat → Bytes → Bool
+  | .exact p, s => s == p
+  | .suffix p, s => p.length ≤ s.length && s.drop (s.length - p.length) == p
+  | .pfx p, s => p.isPrefixOf s
+  | .contains p, s => isInfix p s
+  | .all, _ => true
+
+/-- `RegexpMatcher.Match`: no exclusion matches and some inclusion matches -/
+def domMatch (rules : List DomRule) (s : Bytes) : Bool :=
+  !(rules.any fun r => r.exclude && r.pat.matches s) && (rules.any fun r => !r.exclude && r.pat.matches s)
 
 inductive Refusal where
   | timeFrame | auth | localhost | denied | loop
@@ -316,7 +480,7 @@ def securityCheck (cfg : Cfg) (g : GoReq) : Option Refusal :=
   if !authOK then some .auth else
   let hn := hostname g.urlHost
   if cfg.denyLocalhost && isLocalhost cfg hn then some .localhost else
-  if cfg.denyExact.contains hn then some .denied else none
+  if cfg.denyExact.contains hn || domMatch cfg.denyRules hn then some .denied else none
 
 def hopByHopNames : List Bytes :=
   [bs "Connection", bs "Keep-Alive", bs "Proxy-Authenticate", bs "Proxy-Authorization",
@@ -343,7 +507,8 @@ def forwarded (ctx : Ctx) (g : GoReq) : HMap :=
   let h := if (goGet h (bs "X-Forwarded-Proto")).isEmpty then goSet h (bs "X-Forwarded-Proto") g.scheme else h
   let h := if (goGet h (bs "X-Forwarded-Host")).isEmpty then goSet h (bs "X-Forwarded-Host") g.host else h
   let h := if (goGet h (bs "X-Forwarded-Url")).isEmpty then goSet h (bs "X-Forwarded-Url") (fullURL g) else h
-  let v := goGet h (bs "X-Forwarded-For")
+  -- all field lines count: `strings.Join(req.Header.Values("X-Forwarded-For"), ", ")`
+  let v := joinWith (bs ", ") (hget h (bs "X-Forwarded-For"))
   let xff := if v.isEmpty then ctx.clientIP else v ++ bs ", " ++ ctx.clientIP
   goSet h (bs "X-Forwarded-For") xff
 
@@ -360,9 +525,13 @@ def badFraming (h : HMap) : Option HMap :=
 
 def protoText (minor : Nat) : Bytes := if minor == 0 then bs "1.0" else bs "1.1"
 
+/-- the Via chain of a header map: ALL field lines, in order, combined as RFC 9110 §5.3 says
+    (`strings.Join(req.Header.Values("Via"), ", ")`) -/
+def viaChainOf (h : HMap) : Bytes := joinWith (bs ", ") (hget h (bs "Via"))
+
 /-- `ViaModifier.ModifyRequest`: none = loop detected -/
 def viaStep (cfg : Cfg) (minor : Nat) (h : HMap) : Option HMap :=
-  let via := goGet h (bs "Via")
+  let via := viaChainOf h
   if !via.isEmpty && isInfix cfg.tag via then none
   else
     let pre := if via.isEmpty then [] else via ++ bs ", "
@@ -373,7 +542,15 @@ def viaStep (cfg : Cfg) (minor : Nat) (h : HMap) : Option HMap :=
 inductive Hop where
   | direct (addr : Bytes)             -- origin `host[:port]` as in the URL
   | proxy (hostport : Bytes)
+  | tlsProxy (hostport : Bytes)       -- HTTPS proxy
+  | socks (hostport : Bytes)          -- SOCKS5 proxy (the message itself goes to the origin through it)
+  | otherProxy (scheme hostport : Bytes)   -- unsupported proxy scheme: spoken to as an HTTP proxy by the transport
   deriving Repr, DecidableEq
+
+/-- the transport speaks HTTP-proxy protocol on this hop (absolute-form target, Proxy-Authorization) -/
+def Hop.speaksProxy : Hop → Bool
+  | .proxy _ | .tlsProxy _ | .otherProxy _ _ => true
+  | _ => false
 
 structure OutMsg where
   method : Bytes
@@ -388,6 +565,7 @@ inductive Outcome where
   | badRequest                          -- modifier error other than a security refusal (bad framing)
   | forwarded (hop : Hop) (out : OutMsg)
   | unreadable                          -- request outside the modelled domain
+  | routeError                          -- the proxy function failed: error response, no hop contacted
   deriving Repr
 
 def requestURI (g : GoReq) : Bytes :=
@@ -420,6 +598,9 @@ def writeRequest (hop : Hop) (auth : Option Bytes) (g : GoReq) : OutMsg :=
   let target := match hop with
     | .direct _ => ruri
     | .proxy _ => if g.scheme == bs "http" then g.scheme ++ bs "://" ++ host ++ ruri else ruri
+    | .socks _ => ruri
+    | .tlsProxy _ | .otherProxy _ _ =>
+      if g.scheme == bs "http" then g.scheme ++ bs "://" ++ host ++ ruri else ruri
   let h := g.header
   -- User-Agent: first value only; nothing when empty (forwarder sets "" when the client sent none)
   let ua : List (Bytes × List Bytes) :=
@@ -443,6 +624,8 @@ def writeRequest (hop : Hop) (auth : Option Bytes) (g : GoReq) : OutMsg :=
      then [(bs "accept-encoding", [bs "gzip"])] else []) ++
     (match hop, auth with
      | .proxy _, some a => if g.scheme == bs "http" then [(bs "proxy-authorization", [a])] else []
+     | .tlsProxy _, some a => if g.scheme == bs "http" then [(bs "proxy-authorization", [a])] else []
+     | .otherProxy _ _, some a => if g.scheme == bs "http" then [(bs "proxy-authorization", [a])] else []
      | _, _ => [])
   { method := g.method, target := target,
     fields := mergeFields ([(bs "host", [host])] ++ ua ++ connClose ++ framingFields ++ rest ++ extra),
@@ -486,6 +669,257 @@ def processRequest (cfg : Cfg) (ctx : Ctx) (r : Request) : Outcome :=
           | .http hp auth =>
             if scheme == bs "http" then .forwarded (.proxy hp) (writeRequest (.proxy hp) auth gOut)
             else .forwarded (.direct urlHost) (writeRequest (.direct urlHost) none gOut)
+          | .https hp auth =>
+            if scheme == bs "http" then .forwarded (.tlsProxy hp) (writeRequest (.tlsProxy hp) auth gOut)
+            else .forwarded (.direct urlHost) (writeRequest (.direct urlHost) none gOut)
+          | .socks5 hp _ => .forwarded (.socks hp) (writeRequest (.socks hp) none gOut)
+          | .other sc hp auth =>
+            if scheme == bs "http" then .forwarded (.otherProxy sc hp) (writeRequest (.otherProxy sc hp) auth gOut)
+            else .forwarded (.direct urlHost) (writeRequest (.direct urlHost) none gOut)
+          | .failed => .routeError
+
+/-! ### error responses (`errorResponse`, then `writeErrorResponse` → response modifiers) -/
+
+/-- `err.Error()` of the refusal (the loop error quotes the Via value and is not modelled) -/
+def Refusal.errText : Refusal → Bytes
+  | .timeFrame => bs "proxying denied outside allowed time frame"
+  | .auth => bs "proxy authentication required"
+  | .localhost => bs "localhost proxying is disabled"
+  | .denied => bs "proxying denied"
+  | .loop => []
+
+/-- `Basic realm=%q` of the proxy name (Domain: names of printable ASCII without `"` and `\`, for
+    which `%q` only adds the quotes) -/
+def challengeValue (cfg : Cfg) : Bytes := bs "Basic realm=\"" ++ cfg.name ++ bs "\""
+
+/-- header fields `HTTPProxy.errorResponse` puts on the response it builds -/
+def errorHeadersBuilt (cfg : Cfg) (why : Refusal) : HMap :=
+  let h : HMap := []
+  let h := if why.status == 407 then goSet h (bs "Proxy-Authenticate") (challengeValue cfg) else h
+  let h := goSet h (bs "X-Forwarder-Error") (cfg.name ++ [32] ++ why.errText)
+  goSet h (bs "Content-Type") (bs "text/plain; charset=utf-8")
+
+/-- the same fields as the client receives them: `writeErrorResponse` runs the response modifiers
+    over the error response (the httpspec stack removes hop-by-hop fields from every response) and
+    then puts the challenge of a locally generated 407 back when the modifiers left none -/
+def errorHeadersReceived (cfg : Cfg) (why : Refusal) : HMap :=
+  let built := errorHeadersBuilt cfg why
+  let challenge := if why.status == 407 then hget built (bs "Proxy-Authenticate") else []
+  let h := removeHopByHop built
+  if !challenge.isEmpty && (hget h (bs "Proxy-Authenticate")).isEmpty
+  then HMap.put h (bs "Proxy-Authenticate") challenge else h
+
+/-! ### upstream activity: who is dialled and which message heads are sent there -/
+
+inductive Via where
+  | direct | http | https | socks5
+  deriving Repr, DecidableEq
+
+inductive Peer where
+  | origin | proxy
+  deriving Repr, DecidableEq
+
+/-- one message head put on an upstream connection -/
+structure Sent where
+  recv : Peer                         -- who reads it: the proxy, or the origin (possibly inside a tunnel)
+  setup : Bool                        -- a CONNECT head asking the proxy for a tunnel (not a request for the origin)
+  msg : OutMsg
+  deriving Repr
+
+/-- one upstream connection opened on behalf of a client request -/
+structure Action where
+  via : Via
+  hopAddr : Bytes                     -- address handed to the dialer (before --connect-to)
+  socksTarget : Option Bytes := none  -- SOCKS5: the address the proxy is asked to connect to
+  socksAuth : Option (Bytes × Bytes) := none
+  sent : List Sent := []
+  deriving Repr
+
+def defaultPort (scheme : Bytes) : Bytes :=
+  if scheme == bs "http" then bs "80" else if scheme == bs "https" then bs "443"
+  else if scheme == bs "socks5" || scheme == bs "socks5h" then bs "1080" else []
+
+/-- net/http `canonicalAddr`: `url.Host` with the scheme's default port when none is given -/
+def canonicalAddr (scheme hostport : Bytes) : Bytes :=
+  let port := urlPort hostport
+  netJoinHostPort (hostname hostport) (if port.isEmpty then defaultPort scheme else port)
+
+/-- `maps.Copy(dst, src)` -/
+def mapsCopy (dst src : HMap) : HMap := src.foldl (fun d e => HMap.put d e.1 e.2) dst
+
+def userAgentField (m : HMap) (dflt : Bytes) : List (Bytes × List Bytes) :=
+  match HMap.get m (bs "User-Agent") with
+  | some (v :: _) => if (trimOWS v).isEmpty then [] else [(bs "user-agent", [trimOWS v])]
+  | some [] => []
+  | none => if dflt.isEmpty then [] else [(bs "user-agent", [dflt])]
+
+def writeExcluded : List Bytes :=
+  [bs "Host", bs "User-Agent", bs "Content-Length", bs "Transfer-Encoding", bs "Trailer"]
+
+/-- `--connect-header` rules as `GetProxyConnectHeader` yields them (applied to an empty map) -/
+def connectExtra (cfg : Cfg) : HMap := applyRules cfg.connectRules []
+
+/-- CONNECT head `dialvia.HTTPProxyDialer` writes to an HTTP(S) upstream proxy for a client CONNECT:
+    `{User-Agent: "", Proxy-Authorization from the proxy URL}` overwritten key-wise by the clone of the
+    (modified) client CONNECT header, then by `GetProxyConnectHeader` -/
+def dialviaConnectHead (authority : Bytes) (proxyAuth : Option Bytes) (h extra : HMap) : OutMsg :=
+  let base : HMap := [(bs "User-Agent", [[]])] ++
+    (match proxyAuth with | some a => [(bs "Proxy-Authorization", [a])] | none => [])
+  let m := mapsCopy (mapsCopy base h) extra
+  { method := bs "CONNECT", target := authority,
+    fields := mergeFields ([(bs "host", [authority])] ++ userAgentField m [] ++
+      lowerFields (m.filter fun e => !writeExcluded.contains e.1)),
+    framing := 0 }
+
+/-- CONNECT head net/http's `Transport` writes to an HTTP(S) proxy for an `https` request -/
+def transportConnectHead (targetAddr : Bytes) (proxyAuth : Option Bytes) (extra : HMap) : OutMsg :=
+  let m := match proxyAuth with | some a => goSet extra (bs "Proxy-Authorization") a | none => extra
+  { method := bs "CONNECT", target := targetAddr,
+    fields := mergeFields ([(bs "host", [targetAddr])] ++ userAgentField m (bs "Go-http-client/1.1") ++
+      lowerFields (m.filter fun e => !writeExcluded.contains e.1)),
+    framing := 0 }
+
+/-- scheme and URL host of a non-CONNECT request as `proxyConn.handle` fixes them up
+    (the same computation `processRequest` starts with) -/
+def reqTarget (ctx : Ctx) (r : Request) : Option (Bytes × Bytes) :=
+  match readRequest r with
+  | .error _ => none
+  | .ok g0 =>
+    let urlHost := if g0.urlHost.isEmpty then g0.host else g0.urlHost
+    let scheme :=
+      if g0.scheme.isEmpty then
+        let p := goGet g0.header (bs "X-Forwarded-Proto")
+        if !p.isEmpty then p else if ctx.secure then bs "https" else bs "http"
+      else g0.scheme
+    some (scheme, urlHost)
+
+/-- connection the transport opens for a forwarded request and the heads it writes there -/
+def transportAction (cfg : Cfg) (scheme urlHost : Bytes) (out : OutMsg) : Action :=
+  let origin := canonicalAddr scheme urlHost
+  let viaProxy := fun (v : Via) (psch hp : Bytes) (auth : Option Bytes) =>
+    if scheme == bs "http" then
+      ({ via := v, hopAddr := canonicalAddr psch hp, sent := [⟨.proxy, false, out⟩] } : Action)
+    else
+      { via := v, hopAddr := canonicalAddr psch hp,
+        sent := [⟨.proxy, true, transportConnectHead origin auth (connectExtra cfg)⟩, ⟨.origin, false, out⟩] }
+  match cfg.upstream with
+  | .none | .failed => { via := .direct, hopAddr := origin, sent := [⟨.origin, false, out⟩] }
+  | .http hp auth => viaProxy .http (bs "http") hp auth
+  | .https hp auth => viaProxy .https (bs "https") hp auth
+  | .other sc hp auth => viaProxy .http sc hp auth
+  | .socks5 hp auth =>
+    { via := .socks5, hopAddr := canonicalAddr (bs "socks5") hp, socksTarget := some origin, socksAuth := auth,
+      sent := [⟨.origin, false, out⟩] }
+
+/-- everything done upstream on behalf of a non-CONNECT request -/
+def requestActions (cfg : Cfg) (ctx : Ctx) (r : Request) : List Action :=
+  match processRequest cfg ctx r, reqTarget ctx r with
+  | .forwarded _ out, some (scheme, urlHost) => [transportAction cfg scheme urlHost out]
+  | _, _ => []
+
+/-! ### CONNECT (`proxyConn.handleConnectRequest`) -/
+
+structure ConnectReq where
+  authority : Bytes                   -- request-target `host:port`
+  minor : Nat := 1
+  fields : List (Bytes × Bytes) := []
+  deriving Repr
+
+/-- `http.ReadRequest` sees a CONNECT target as the authority of a URL without scheme and path -/
+def ConnectReq.asRequest (c : ConnectReq) : Request :=
+  { method := bs "CONNECT", minor := c.minor, target := .absolute [] c.authority, path := [], query := none,
+    fields := c.fields }
+
+inductive ConnectOutcome where
+  | refused (status : Nat) (why : Refusal)
+  | badRequest
+  | unreadable
+  | mitm                              -- `200` written by the proxy itself, TLS terminated locally; nothing dialled yet
+  | tunnel (a : Action)               -- upstream connection opened; on success the client gets `200` and raw bytes flow
+  | routeError                        -- proxy function failed or unsupported proxy scheme: error response, nothing dialled
+  deriving Repr
+
+/-- the CONNECT request header after the modifier stack (`none` when a modifier refused) -/
+def connectModified (cfg : Cfg) (g : GoReq) : Except ConnectOutcome HMap :=
+  match securityCheck cfg g with
+  | some why => .error (.refused why.status why)
+  | none =>
+    let h1 := removeHopByHop g.header
+    -- NewForwardedModifier returns early for CONNECT
+    match badFraming h1 with
+    | none => .error .badRequest
+    | some h2 =>
+      match viaStep cfg g.minor h2 with
+      | none => .error (.refused 400 .loop)
+      | some h3 =>
+        let h4 := applyRules cfg.connectRules h3
+        -- `setBasicAuth` returns at once for CONNECT: site credentials are for the origin only
+        .ok (if (HMap.get h4 (bs "User-Agent")).isNone then goSet h4 (bs "User-Agent") [] else h4)
+
+/-- what happens to a CONNECT that passed the modifier stack with header `h`: interception, or
+    `martian.Proxy.connect` (direct dial / upstream HTTP(S) CONNECT via dialvia / SOCKS5) -/
+def connectDispatch (cfg : Cfg) (authority : Bytes) (h : HMap) : ConnectOutcome :=
+  if cfg.mitm then .mitm else
+  match cfg.upstream with
+  | .none => .tunnel { via := .direct, hopAddr := authority }
+  | .http hp auth =>
+    .tunnel { via := .http, hopAddr := hp,
+              sent := [⟨.proxy, true, dialviaConnectHead authority auth h (connectExtra cfg)⟩] }
+  | .https hp auth =>
+    .tunnel { via := .https, hopAddr := hp,
+              sent := [⟨.proxy, true, dialviaConnectHead authority auth h (connectExtra cfg)⟩] }
+  | .socks5 hp auth =>
+    let port := urlPort hp
+    .tunnel { via := .socks5, hopAddr := netJoinHostPort (hostname hp) (if port.isEmpty then bs "1080" else port),
+              socksTarget := some authority, socksAuth := auth }
+  | .other _ _ _ => .routeError
+  | .failed => .routeError
+
+def processConnect (cfg : Cfg) (_ctx : Ctx) (c : ConnectReq) : ConnectOutcome :=
+  match readRequest c.asRequest with
+  | .error _ => .unreadable
+  | .ok g0 =>
+    let g := { g0 with header := goDel g0.header (bs "X-Martian-Terminate-Tls") }
+    match connectModified cfg g with
+    | .error o => o
+    | .ok h => connectDispatch cfg c.authority h
+
+def connectActions (cfg : Cfg) (ctx : Ctx) (c : ConnectReq) : List Action :=
+  match processConnect cfg ctx c with
+  | .tunnel a => [a]
+  | _ => []
+
+/-! ### a client connection: the same functions at every position, also inside an intercepted tunnel -/
+
+inductive ConnItem where
+  | req (r : Request)
+  | connect (c : ConnectReq)
+  deriving Repr
+
+inductive ItemOutcome where
+  | req (o : Outcome)
+  | connect (o : ConnectOutcome)
+  deriving Repr
+
+def processItem (cfg : Cfg) (ctx : Ctx) : ConnItem → ItemOutcome
+  | .req r => .req (processRequest cfg ctx r)
+  | .connect c => .connect (processConnect cfg ctx c)
+
+def itemActions (cfg : Cfg) (ctx : Ctx) : ConnItem → List Action
+  | .req r => requestActions cfg ctx r
+  | .connect c => connectActions cfg ctx c
+
+/-- requests read one after the other from a keep-alive client connection: a refused or forwarded
+    request leaves the connection in request mode; an intercepted CONNECT switches to the TLS session
+    (`secure`); an established tunnel ends request processing -/
+def processConnection (cfg : Cfg) (ctx : Ctx) : List ConnItem → List ItemOutcome
+  | [] => []
+  | it :: rest =>
+    let o := processItem cfg ctx it
+    o :: (match o with
+      | .connect (.tunnel _) => []
+      | .connect .mitm => processConnection cfg { ctx with secure := true } rest
+      | _ => processConnection cfg ctx rest)
 
 end Req
 end FwdVerif
